@@ -1399,3 +1399,23 @@ m('G4-mode-block-translates-every-namespace-but-the-sentinel', 'C13', 'G4', 'dic
 
     with __REGISTRY_LOCK:
         prev = """)
+m('AL1-accepted-element-answers-for-all', 'C03', 'AL1', 'AllLeavesImpl/no-early-yes', 'src/treespec/flatten.cpp',
+  """                                     *leaf_predicate)) [[unlikely]] {
+            continue;
+        }
+        if (PyTreeTypeRegistry::GetKind<NoneIsLeaf>(handle, custom, registry_namespace) !=
+            PyTreeKind::Leaf) [[unlikely]] {
+            return false;""",
+  """                                     *leaf_predicate)) [[unlikely]] {
+            return true;
+        }
+        if (PyTreeTypeRegistry::GetKind<NoneIsLeaf>(handle, custom, registry_namespace) !=
+            PyTreeKind::Leaf) [[unlikely]] {
+            return false;""")
+m('AL1-all-leaves-rejects-the-leaves', 'C03', 'AL1', 'AllLeavesImpl/no-on-a-non-leaf', 'src/treespec/flatten.cpp',
+  """        if (PyTreeTypeRegistry::GetKind<NoneIsLeaf>(handle, custom, registry_namespace) !=
+            PyTreeKind::Leaf) [[unlikely]] {
+            return false;""",
+  """        if (PyTreeTypeRegistry::GetKind<NoneIsLeaf>(handle, custom, registry_namespace) ==
+            PyTreeKind::Leaf) [[unlikely]] {
+            return false;""")
